@@ -807,9 +807,24 @@ func TestC21Prealloc(t *testing.T) {
 	st := pbt.NewStats("TestC21Prealloc")
 	defer st.Flush()
 	vf := allVecFields()
+	// bare vectors (no vector constructor id in front of the count) read their
+	// count without the checks of the boxed header: a handful of fields among
+	// thousands, so they get their own share of the cases
+	var bare []vecField
+	for _, v := range vf {
+		if enc, off, _, err := vecCase(v.ci, v.fidx, 0); err == nil && (off < 4 || binary.LittleEndian.Uint32(enc[off-4:]) != 0x1cb5c415) {
+			bare = append(bare, v)
+		}
+	}
+	st.Set("bare_vector_fields", len(bare))
 	var maxOver int64 = -1 << 62
 	rapid.Check(t, func(t *rapid.T) {
 		v := vf[rapid.IntRange(0, len(vf)-1).Draw(t, "vecField")]
+		isBare := false
+		if len(bare) > 0 && rapid.IntRange(0, 7).Draw(t, "bareField") == 0 {
+			v = bare[rapid.IntRange(0, len(bare)-1).Draw(t, "bareIdx")]
+			isBare = true
+		}
 		f := v.ci.fields[v.fidx]
 		elems := rapid.IntRange(0, 3).Draw(t, "elems")
 		enc, off, elemLen, err := vecCase(v.ci, v.fidx, elems)
@@ -817,7 +832,9 @@ func TestC21Prealloc(t *testing.T) {
 			t.Fatalf("harness: %s field %s: %v", v.ci, f.name, err)
 		}
 		var n int
-		switch rapid.IntRange(0, 3).Draw(t, "claimClass") {
+		switch rapid.IntRange(0, 4).Draw(t, "claimClass") {
+		case 4: // the count word is a signed int: negative claims
+			n = rapid.OneOf(rapid.SampledFrom([]int{-1, -2, -7, -1023, -1024, -1025, -2048, -1 << 31, -1<<31 + 1, -1<<31 + 1023}), rapid.IntRange(-1<<31, -1)).Draw(t, "claimedNeg")
 		case 0:
 			n = rapid.SampledFrom([]int{1023, 1024, 1025, 2047, 2048, 65535, 1 << 20, 1<<24 + 5, 1<<31 - 1, 1<<31 - 1024, 1<<31 - 1025, 1 << 30}).Draw(t, "claimed")
 		case 1:
@@ -837,7 +854,11 @@ func TestC21Prealloc(t *testing.T) {
 			in = in[:off+4+elems*elemLen]
 		}
 		elemSize := uint64(f.typ.Elem().Size())
-		allowed := uint64(n%bin.PreallocateLimit)*elemSize + uint64(allocFactor*len(in)) + preallocSlack
+		pre := n % bin.PreallocateLimit
+		if pre < 0 {
+			pre = 0 // a negative claim entitles to no preallocation at all
+		}
+		allowed := uint64(pre)*elemSize + uint64(allocFactor*len(in)) + preallocSlack
 		var m0, m1 runtime.MemStats
 		o := v.ci.newFn()
 		prepareGenerics(o)
@@ -849,11 +870,13 @@ func TestC21Prealloc(t *testing.T) {
 			t.Fatalf("%s field %s (element %s, %d bytes): header claims %d elements, %d present: decode allocated %d bytes, allowed %d (= %d mod %d elements + %d*len + %d); err=%v\ninput: %x",
 				v.ci, f.name, f.typ.Elem(), elemSize, n, elems, alloc, allowed, n, bin.PreallocateLimit, allocFactor, preallocSlack, derr, in)
 		}
-		if over := int64(alloc) - int64(uint64(n%bin.PreallocateLimit)*elemSize); over > maxOver {
+		if over := int64(alloc) - int64(uint64(pre)*elemSize); over > maxOver {
 			maxOver = over
 		}
-		cl := []string{tail, fmt.Sprintf("err=%v", derr != nil), "elemKind=" + f.typ.Elem().Kind().String()}
+		cl := []string{tail, fmt.Sprintf("err=%v", derr != nil), "elemKind=" + f.typ.Elem().Kind().String(), fmt.Sprintf("bare=%v", isBare)}
 		switch {
+		case n < 0:
+			cl = append(cl, "claimed<0")
 		case n >= 1<<30:
 			cl = append(cl, "claimed>=2^30")
 		case n >= 1<<20:
@@ -864,7 +887,7 @@ func TestC21Prealloc(t *testing.T) {
 		if n%bin.PreallocateLimit == 0 {
 			cl = append(cl, "claimed multiple of limit")
 		}
-		st.Case(fmt.Sprintf("%s.%s/%d/%d/%s", v.ci.name, f.name, elems, n, tail), n > bin.PreallocateLimit,
+		st.Case(fmt.Sprintf("%s.%s/%d/%d/%s", v.ci.name, f.name, elems, n, tail), n > bin.PreallocateLimit || n < 0,
 			fmt.Sprintf("%s.%s claimed=%d present=%d %s alloc=%d", v.ci.name, f.name, n, elems, tail, alloc), cl...)
 	})
 	st.Set("vector_fields", len(vf))
